@@ -166,6 +166,39 @@ def check_other_schedules(acc, m, e, n, unit):
         acc.outcomes[('continuation-other-step', r2)] += 1
 
 
+def check_aborted_first_instant(acc, m, e, n, unit):
+    """The first run dies at its very first instant (the user's load function raises); the user repairs the function, gives
+    the last element a null initial acceleration and runs again on the same powertrain.  If the library accepts the
+    second attempt, the axis is the grid 0, dt, ..., T -- time 0 once."""
+    from gearpy.units import AngularAcceleration
+    dtF = dec(m, e)
+    dt, T = float(dtF), float(dtF * n)
+    case = {'kind': 'aborted', 'm': m, 'e': e, 'n': n, 'unit': unit}
+    mod = sim.Model(spec_for(SPEC, dt, unit))
+    good = mod.elements[-1].external_torque
+
+    def broken(time, angular_position, angular_speed):
+        raise RuntimeError('load function not ready')
+    mod.elements[-1].external_torque = broken
+    try:
+        mod.run([dt, unit], [T, unit])
+        return
+    except RuntimeError:
+        pass
+    mod.elements[-1].external_torque = good
+    mod.elements[-1].angular_acceleration = AngularAcceleration(0, 'rad/s^2')
+    try:
+        mod.run([dt, unit], [T, unit])
+    except Exception:
+        acc.outcomes[('retry-after-aborted-first-instant', 'refused')] += 1
+        return
+    acc.executions += 1
+    vals = [t.to(unit).value for t in mod.pt.time]
+    acc.transitions += len(vals)
+    r = judge(acc, case, vals, 0.0, dt, T, n, 'retry-after-aborted-first-instant', first=True)
+    acc.outcomes[('retry-after-aborted-first-instant', r)] += 1
+
+
 def check_stopped(acc, m, e, n, unit):
     """With a stop condition the axis is a prefix of the grid."""
     dtF = dec(m, e)
@@ -239,6 +272,8 @@ def run_shard(shard, tier):
                     if rep == 'lit' and (n % 4 == 2 or tier != 'quick'):
                         check_other_schedules(acc, m, e, n, unit)
                         acc.nstates += 1
+                        check_aborted_first_instant(acc, m, e, n, unit)
+                        acc.nstates += 1
                     if rep == 'lit' and (n % 10 == 3 or tier != 'quick') and n <= 40:
                         for pwm in (0, 1, -1):
                             check_held(acc, m, e, n, unit, pwm)
@@ -256,6 +291,9 @@ def run_shard(shard, tier):
 
 def replay(case):
     acc = Acc()
+    if case.get('kind') == 'aborted':
+        check_aborted_first_instant(acc, case['m'], case['e'], case['n'], case['unit'])
+        return acc.violations
     if case.get('kind') == 'held':
         check_held(acc, case['m'], case['e'], case['n'], case['unit'], case['pwm'])
         return acc.violations
